@@ -220,6 +220,12 @@ impl WorldB {
         obs.count("oracle.C10.table");
         let pending: Vec<SocketAddr> = self.server.verif_pending().iter().map(|(a, _)| *a).collect();
         self.pend_model.retain(|a, _| pending.contains(a));
+        // an address is half-open or connected, never both: promotion consumes the half-open entry
+        for a in &pending {
+            if self.sessions.values().any(|s| s.addr == *a) && self.server.clients_id().iter().any(|id| self.server.client_addr(*id) == Some(*a)) {
+                obs.violate("C10", "half-open-entry-survives-its-promotion", "pending", format!("address {} is connected and half-open at once", a));
+            }
+        }
         let ids = self.server.clients_id();
         let mut s = ids.clone();
         s.sort();
@@ -303,6 +309,11 @@ impl WorldB {
         // packets first (from whatever address) addresses a legitimate handshake; C05 judges the resulting connection
         if !bogus && sess_id.is_none() && matches!(ptype, T_REQUEST | T_RESPONSE) && matches!(producer, Producer::Client { .. }) {
             handshake_ok = true;
+        }
+        // a response addresses the half-open entry of its source address; without one (never requested, already promoted
+        // to a session that has ended, expired) it addresses nothing
+        if ptype == T_RESPONSE && sess_id.is_none() && !self.pend_model.contains_key(&src) {
+            handshake_ok = false;
         }
         // adversary-made but cryptographically valid material (its own tokens) is handled as handshake/session traffic of that token
         if let Producer::Adversary = producer {
@@ -490,6 +501,12 @@ impl WorldB {
                     obs.count("oracle.C04.completeness");
                     if !matches!(res, Res::Payload { .. }) {
                         obs.violate("C04", "genuine-in-window-payload-not-surfaced", "server", format!("datagram {} seq {} from client {}", ix, seq, id));
+                        // C07: if an unauthentic datagram claiming this sequence (modulo the window size) reached this address
+                        // before, it is what made the receiver refuse the genuine one
+                        let dst = self.ledger[ix].dst;
+                        if self.ledger.iter().any(|r| r.certainly_bogus && r.arrivals > 0 && r.src == src && r.dst == dst && matches!(r.ptype, T_KEEPALIVE | T_PAYLOAD | T_DISCONNECT) && r.seq % 256 == seq % 256) {
+                            obs.violate("C07", "unauthentic-datagram-had-effect", "bogus/shadowed-genuine-datagram/server", format!("datagram {} seq {} from client {}", ix, seq, id));
+                        }
                     }
                 }
                 if ptype == T_DISCONNECT && !taint && !matches!(res, Res::Disconnected { .. }) {
@@ -843,6 +860,10 @@ impl WorldB {
                     obs.count("oracle.C04.completeness");
                     if surfaced.is_none() {
                         obs.violate("C04", "genuine-in-window-payload-not-surfaced", "client", format!("datagram {} seq {} slot {}", ix, seq, slot));
+                        let my_addr = self.slots[slot].addr;
+                        if self.ledger.iter().any(|r| r.certainly_bogus && r.arrivals > 0 && r.dst == my_addr && matches!(r.ptype, T_KEEPALIVE | T_PAYLOAD | T_DISCONNECT) && r.seq % 256 == seq % 256) {
+                            obs.violate("C07", "unauthentic-datagram-had-effect", "bogus/shadowed-genuine-datagram/client", format!("datagram {} seq {} slot {}", ix, seq, slot));
+                        }
                     }
                 }
             }
